@@ -22,7 +22,7 @@ META = {
     "trusted_base": ["Python list/deque semantics (append/popleft/indexed assignment)"],
     "assumptions": ["capacity >= 1", "TreeStorage is covered by C19"],
 }
-MIN_INSTANCES = {"PARALLEL": 5, "COUNT": 5, "OBS": 5}
+MIN_INSTANCES = {"PARALLEL": 5, "COUNT": 5, "OBS": 5, "COPY": 5}
 
 FIFO_ROOT = "IntervalStorage"
 
@@ -37,6 +37,9 @@ def check(run):
     for cls in classes:
         _storage(run, prog, cls, fifo_root in prog.mro(cls))
         ctor_wiring(run, prog, cls, "CTOR")         # capacity / store_targets as configured
+    from .copylib import copy_protocol
+    for cls in classes:
+        copy_protocol(run, prog, cls)               # copies / pickles of a storage hold what the storage holds
 
 
 def _storage(run, prog, cls, fifo):
